@@ -206,6 +206,9 @@ func sortSliceModel(x *fnCtx, st *State, fr *Frame, in ssa.Instruction, args []*
 	var lessExpr *SExpr
 	if con != nil {
 		for _, cl := range con.ClausesOf("ensures") {
+			if !cl.appliesTo(x.eng.prop) {
+				continue
+			}
 			if cl.Expr.Kind == "bin" && cl.Expr.Op == "==" && cl.Expr.Args[0].Kind == "ident" && cl.Expr.Args[0].Op == "result" {
 				lessExpr = cl.Expr.Args[1]
 				break
